@@ -159,6 +159,22 @@ Theorem C16_all_schedules_invariant : forall cp ops0 ops sch c' ts',
 Proof. exact reach_all_schedules_inv. Qed.
 Print Assumptions C16_all_schedules_invariant.
 
+(* ... and absence survives concurrency: from any reachable state in which k
+   is not resident, under EVERY schedule of any number of concurrent callers
+   none of which puts k (deletes, lookups, Puts of other keys with their
+   evictions), k is still not resident and Get k misses — no interleaving of
+   the atomic blocks resurrects a deleted or evicted entry. *)
+Theorem C16_absent_under_every_schedule : forall cp ops0 k ops sch c' ts',
+  0 <= cp < two64 -> Forall wf_op ops0 -> Forall wf_op ops ->
+  forallb conc_op ops = true ->
+  forallb (fun o => negb (is_put_of k o)) ops = true ->
+  let c := fst (run (empty cp) ops0) in
+  ~ In k (keys (ll c)) ->
+  run_sched c (map spawn ops) sch = Some (c', ts') ->
+  snd (step c' (Get k)) = OVal None [] /\ ~ In k (keys (ll c')).
+Proof. exact reach_absent_all_schedules. Qed.
+Print Assumptions C16_absent_under_every_schedule.
+
 (* Non-vacuity: a history with an eviction, a replacement by a bigger value,
    a Put that fails because the resident LRU value's Size() fails (the F12
    situation) followed by operations that still work, and the F13 schedule
